@@ -1221,3 +1221,143 @@ func ruleEveryPeerParsed(w *World, r *Report, prop, rule string) {
 	})
 	r.floor(rule+" peer address parses", n, 1)
 }
+
+// ---------------------------------------------------------------------------------------------
+// C17 R17.3, second accepted form of the Exact expansion
+
+// exactPositionLoopSymbolic: the expansion written as `rules = make([]T, n)` with n = int(high-low)+1 (0 for an
+// inverted range) and `rules[i] = {low + uint16(i), 0xFFFF}` for every i of the slice. Returns false when the
+// function has no such slice (the caller then holds the loop to the port-counting form).
+func exactPositionLoopSymbolic(w *World, r *Report, f *ssa.Function, name, pos string) bool {
+	var mk *ssa.MakeSlice
+	allInstrs(f, func(i ssa.Instruction) {
+		if m, ok := i.(*ssa.MakeSlice); ok && strings.HasSuffix(typeName(m.Type()), "portRangeTernaryRule") {
+			if k, isK := constInt(m.Len); isK && k == 0 {
+				return // the empty list the function starts with
+			}
+			mk = m
+		}
+	})
+	if mk == nil {
+		return false
+	}
+	// the length: every non-zero alternative is int(high - low) + 1
+	lenOK, lenDesc := true, ""
+	var alts []ssa.Value
+	var collect func(v ssa.Value, d int)
+	collect = func(v ssa.Value, d int) {
+		if phi, ok := v.(*ssa.Phi); ok && d < 4 {
+			for _, e := range phi.Edges {
+				collect(e, d+1)
+			}
+			return
+		}
+		alts = append(alts, v)
+	}
+	collect(mk.Len, 0)
+	for _, a := range alts {
+		if k, isK := constInt(a); isK && k == 0 {
+			continue
+		}
+		good := false
+		if bo, ok := stripConv(a).(*ssa.BinOp); ok && bo.Op.String() == "+" {
+			if k, isK := constInt(bo.Y); isK && k == 1 {
+				if sub, ok := stripConv(bo.X).(*ssa.BinOp); ok && sub.Op.String() == "-" {
+					if strings.HasSuffix(symOf(sub.X).String(), "portRange.high") && strings.HasSuffix(symOf(sub.Y).String(), "portRange.low") {
+						good = true
+					}
+				}
+			}
+		}
+		if !good {
+			lenOK = false
+			lenDesc = symOf(a).String()
+		}
+	}
+	r.check(lenOK, "R17.3", name, "the list has one slot per port: high − low + 1", pos, "make(…, int(high-low)+1)", "the list is made with "+lenDesc+" slots")
+	// the slots: rules[i].port = low + trunc(i), rules[i].mask = 0xFFFF, i a full-range index of the slice
+	nPort, nMask := 0, 0
+	allInstrs(f, func(i ssa.Instruction) {
+		st, ok := i.(*ssa.Store)
+		if !ok {
+			return
+		}
+		fa, ok := st.Addr.(*ssa.FieldAddr)
+		if !ok {
+			return
+		}
+		// the slot is written field by field, or through a literal temporary that is copied into it
+		ia, ok := fa.X.(*ssa.IndexAddr)
+		if !ok {
+			if tmp, isTmp := fa.X.(*ssa.Alloc); isTmp && tmp.Referrers() != nil {
+				for _, ref := range *tmp.Referrers() {
+					if ld, isLd := ref.(*ssa.UnOp); isLd && ld.Referrers() != nil {
+						for _, ref2 := range *ld.Referrers() {
+							if cp, isSt := ref2.(*ssa.Store); isSt {
+								if x, isIA := cp.Addr.(*ssa.IndexAddr); isIA {
+									ia, ok = x, true
+								}
+							}
+						}
+					}
+				}
+			}
+		}
+		if !ok || !derivesFromMake(ia.X, mk) {
+			return
+		}
+		full := isRangeIndexOf(ia.Index) || isCountingIndexOf(ia.Index)
+		switch fa.Field {
+		case 0:
+			nPort++
+			good := false
+			if bo, ok := stripConv(st.Val).(*ssa.BinOp); ok && bo.Op.String() == "+" {
+				x, y := bo.X, bo.Y
+				if strings.HasSuffix(symOf(y).String(), "portRange.low") {
+					x, y = y, x
+				}
+				if strings.HasSuffix(symOf(x).String(), "portRange.low") && stripConv(y) == ia.Index {
+					good = true
+				}
+			}
+			r.check(good && full, "R17.3", name, "slot i holds port low + i", w.Pos(st.Pos()), symOf(st.Val).String(), "slot i of the expansion holds "+symOf(st.Val).String()+ifelse(full, "", " (and i does not run over the whole list)"))
+		case 1:
+			nMask++
+			k, isK := constInt(st.Val)
+			r.check(isK && k == 0xFFFF, "R17.3", name, "every slot matches its port exactly (mask 0xFFFF)", w.Pos(st.Pos()), symOf(st.Val).String(), "the mask of a slot is "+symOf(st.Val).String())
+		}
+	})
+	r.check(nPort == 1 && nMask == 1, "R17.3", name, "one statement fills the slots", pos, "1 port store, 1 mask store", fmt.Sprintf("%d port stores, %d mask stores into the list", nPort, nMask))
+	return true
+}
+
+func derivesFromMake(v ssa.Value, mk *ssa.MakeSlice) bool {
+	for d := 0; d < 6 && v != nil; d++ {
+		if v == ssa.Value(mk) {
+			return true
+		}
+		switch x := v.(type) {
+		case *ssa.Phi:
+			for _, e := range x.Edges {
+				if e == ssa.Value(mk) {
+					return true
+				}
+			}
+			return false
+		case *ssa.Slice:
+			v = x.X
+		case *ssa.UnOp:
+			if cell := cellOf(x.X); cell != nil {
+				for _, st := range storesTo(cell) {
+					if st.Val == ssa.Value(mk) {
+						return true
+					}
+				}
+			}
+			return false
+		default:
+			return false
+		}
+	}
+	return false
+}
